@@ -39,6 +39,12 @@ impl ProcessRegistry {
     }
 
     pub async fn remove(&self, pid: &ExternalPid) -> Option<ProcessHandle> {
+        // a process that is gone must not keep its names: drop them first, so that nobody who
+        // sees the pid disappear can still resolve one of its names
+        self.by_name
+            .write()
+            .await
+            .retain(|_, registered| registered != pid);
         self.by_pid.write().await.remove(pid)
     }
 
